@@ -3,8 +3,10 @@
 Oracle = the round trip itself: a description is assembled from generated
 texts (each passed through quoteStringArgument) as positional / keyword
 arguments, parsed by the real code, and compared with the texts that went in.
-Three routes per generic case: endpoints._parse, and the public
+Four routes per generic case: endpoints._parse, the public
 serverFromString / clientFromString dispatching to a recording stand-in parser
+plugin, and serverFromString through twisted's 'haproxy:' wrapper parser (which
+un-parses = re-quotes its arguments and parses them again) in front of that
 plugin (endpoints.getPlugins is replaced for the duration of the call, so the
 plugin cache on disk is never touched).  A second family of cases drives the
 concrete unix:/tcp: server and client string forms and reads the text back
@@ -32,9 +34,12 @@ KEYS = ["k0", "k1", "k2", "k3", "k4", "interface", "path"]
 FORMS = [
     "s-unix-pos", "s-unix-pos-kw", "s-unix-kw", "s-tcp-iface", "s-tcp-iface-first",
     "c-unix-pos", "c-unix-pos-kw", "c-unix-kw", "c-tcp-host-pos", "c-tcp-host-kw", "c-tcp-bind",
+    # the same server forms behind the 'haproxy:' wrapper prefix (description is un-parsed and parsed again)
+    "h-s-unix-pos", "h-s-unix-pos-kw", "h-s-unix-kw", "h-s-tcp-iface", "h-s-tcp-iface-first",
 ]
 # forms in which the text is a positional argument
-POSITIONAL_FORMS = {"s-unix-pos", "s-unix-pos-kw", "c-unix-pos", "c-unix-pos-kw", "c-tcp-host-pos"}
+POSITIONAL_FORMS = {"s-unix-pos", "s-unix-pos-kw", "c-unix-pos", "c-unix-pos-kw", "c-tcp-host-pos",
+                    "h-s-unix-pos", "h-s-unix-pos-kw"}
 
 
 def classes(text):
@@ -75,18 +80,23 @@ def _call(fn):
 
 
 def _via_plugin(which, desc):
+    """serverFromString / clientFromString with the plugin lookup replaced by a
+    recording stand-in parser (prefix verifake) and, for servers, twisted's own
+    'haproxy:' wrapper parser, which un-parses (re-quotes) its arguments and
+    parses the result again."""
     from twisted.internet import endpoints
+    from twisted.protocols.haproxy._parser import HAProxyServerParser
     rec = _Recorder()
     saved = endpoints.getPlugins
-    endpoints.getPlugins = lambda iface: [rec]
+    endpoints.getPlugins = lambda iface: [rec, HAProxyServerParser()]
     try:
         if which == "server":
-            endpoints.serverFromString(None, desc)
+            ep = endpoints.serverFromString(None, desc)
         else:
-            endpoints.clientFromString(None, desc)
+            ep = endpoints.clientFromString(None, desc)
     finally:
         endpoints.getPlugins = saved
-    return rec.got
+    return rec.got, ep
 
 
 def _body(items, quote_pos, quote_kw):
@@ -103,8 +113,10 @@ def _generic_routes(body):
     from twisted.internet import endpoints
     return [
         ("_parse", "pfx", lambda: endpoints._parse("pfx:" + body)),
-        ("serverFromString", None, lambda: _via_plugin("server", "verifake:" + body)),
-        ("clientFromString", None, lambda: _via_plugin("client", "verifake:" + body)),
+        ("serverFromString", None, lambda: _via_plugin("server", "verifake:" + body)[0]),
+        ("clientFromString", None, lambda: _via_plugin("client", "verifake:" + body)[0]),
+        # re-quoted and re-parsed by the wrapping parser
+        ("serverFromString[haproxy:]", None, lambda: _via_plugin("server", "haproxy:verifake:" + body)[0]),
     ]
 
 
@@ -160,6 +172,11 @@ def run_generic(ctx, case):
     ctx.count(f"generic: {len(items)} items")
     if eq_in_pos:
         ctx.count("generic: '=' in a positional text")
+    if "nonascii" in nt:
+        ctx.count("generic: non-ASCII text through the haproxy: re-quoting route")
+    last = items[-1][-1]
+    if last and (last != last.strip()):
+        ctx.count("generic: first/last slot text with edge whitespace")
     if len(nt) >= 3 and len(items) >= 3:
         ctx.sample(case)
 
@@ -169,6 +186,16 @@ def _form(form, qt):
     from twisted.internet import endpoints as E
     S = lambda d: (lambda: E.serverFromString(None, d))
     C = lambda d: (lambda: E.clientFromString(None, d))
+    if form.startswith("h-"):
+        def S(d):
+            def build():
+                from twisted.internet.endpoints import _WrapperServerEndpoint
+                ep = _via_plugin("server", "haproxy:" + d)[1]
+                if not isinstance(ep, _WrapperServerEndpoint):
+                    raise ValueError(f"haproxy: description did not give a wrapper endpoint but {ep!r}")
+                return ep._wrappedEndpoint
+            return build
+        form = form[2:]
     T = Ellipsis
     table = {
         "s-unix-pos": (S(f"unix:{qt}"), dict(_address=T, _mode=0o666, _backlog=50, _wantPID=True)),
@@ -229,6 +256,8 @@ def run_form(ctx, case):
     if cl:
         ctx.nontrivial(("f", form, text))
     ctx.count("form: " + form)
+    if form.startswith("h-") and "nonascii" in cl:
+        ctx.count("form: haproxy: form with non-ASCII text")
     for c in cl:
         ctx.count("form: text has " + c)
 
@@ -267,6 +296,13 @@ def _enum_shard(ctx, arg):
                 yield dict(kind="generic", items=items)
             for form in FORMS:
                 yield dict(kind="form", form=form, text=t)
+        if shard == 0:
+            # second small scope: blanks / non-ASCII at the edges of a text, every layout and form
+            for t in _short_texts(3, " \t\u00a0\u00e9:"):
+                for items in _layouts(t):
+                    yield dict(kind="generic", items=items)
+                for form in FORMS:
+                    yield dict(kind="form", form=form, text=t)
     enumerate_run(ctx, cases(), run_case)
 
 
@@ -307,7 +343,8 @@ def run(ctx):
     else:
         _enum_shard(ctx, (maxlen, 0, 1))
     ctx.extra["exhaustive_scope"] = (f"all texts of length <= {maxlen} over ':', '=', '\\\\', 'a' "
-                                     f"in 5 generic layouts x 3 routes and {len(FORMS)} concrete forms")
+                                     f"in 5 generic layouts x 4 routes and {len(FORMS)} concrete forms; "
+                                     "all texts of length <= 3 over ' ', TAB, U+00A0, U+00E9, ':' likewise")
     ctx.exhaustive = False  # the statement quantifies over all texts; only this scope is complete
     if ctx.has_violation():
         return
